@@ -308,3 +308,7 @@ MUTANTS = [
 ]
 
 REPAIRS = []
+
+EQUIV = [
+    dict(name='rename loop variable of OscScore.finish', file='sc3/base/_oscinterface.py', start='    def finish(self, tailtime=0.0):', end='    def write(self, path):', rename=[('entry', 'item')]),
+]
